@@ -11,6 +11,7 @@
 
 mod codec;
 mod common;
+mod connlife;
 mod credit;
 mod e2e;
 mod frame;
@@ -79,6 +80,7 @@ fn main() {
         "recvcredit" => recvcredit::main(&opts),
         "reasm" => reasm::main(&opts),
         "ids" => ids::main(&opts),
+        "connlife" => connlife::main(&opts),
         "settle" => settle::main(&opts),
         "sessionwire" => sessionwire::main(&opts),
         "life" => life::main(&opts),
